@@ -427,15 +427,22 @@ void base_str<CharT>::append(const base_str& text)
 {
     size_t len;
 
-    len = length();
-    len += text.length();
+    const size_t oldLen = length();
+    const size_t addLen = text.length();
+    len = oldLen + addLen;
     if (!len) {
         // empty + empty: nothing to append, and there may be no buffer to append to
         return;
     }
     EnsureAlloced(len + 1);
 
-    base_str::cat(m_data->data(), text.c_str());
+    // `text` may be this very string (s.append(s)): read it after the reallocation, copy by length
+    const CharT* src = text.c_str();
+    CharT* dst = m_data->data();
+    for (size_t i = 0; i < addLen; i++) {
+        dst[oldLen + i] = src[i];
+    }
+    dst[len] = 0;
     m_data->len = len;
 }
 
